@@ -18,7 +18,7 @@ import time
 ID, X = sys.argv[1], sys.argv[2]
 NOSUITE = "--no-suite" in sys.argv
 # extra `go test` flags some demonstrations need
-DEMO_FLAGS = {"C05-B": "-race", "C14-A": "-tags gc_opt", "C14-B": "-tags gc_opt"}.get("%s-%s" % (ID, X), "")
+DEMO_FLAGS = {"C05-B": "-race", "C05-D": "-race", "C14-A": "-tags gc_opt", "C14-B": "-tags gc_opt", "C14-C": "-tags gc_opt"}.get("%s-%s" % (ID, X), "")
 OUT = "/tmp/wt/out/%s" % ID
 PATCH = "%s/%s.patch.diff" % (OUT, X)
 DEMO = "%s/%s.demo" % (OUT, X)
